@@ -11,7 +11,7 @@ use crate::engine::data_types::*;
 use crate::mem_store::*;
 use crate::stringpack::StringPackerIterator;
 
-#[derive(Serialize, Deserialize)]
+#[derive(Clone, Serialize, Deserialize)]
 pub struct Column {
     name: String,
     len: usize,
@@ -30,6 +30,13 @@ pub trait DataSource: fmt::Debug + Sync + Send {
 
     fn decode<'a>(&'a self) -> BoxedData<'a> {
         decode(&self.codec(), &self.data_sections())
+    }
+
+    /// A copy of the column with its first data section decompressed, if the column is held
+    /// LZ4/Pco compressed. `decode` hands out strings that borrow from the column's sections, which
+    /// only works on the decompressed bytes.
+    fn lz4_or_pco_decoded(&self) -> Option<Column> {
+        None
     }
 }
 
@@ -51,6 +58,9 @@ impl<T: DataSource> DataSource for Arc<T> {
     }
     fn full_type(&self) -> Type {
         (**self).full_type()
+    }
+    fn lz4_or_pco_decoded(&self) -> Option<Column> {
+        (**self).lz4_or_pco_decoded()
     }
 }
 
@@ -77,6 +87,16 @@ impl DataSource for Column {
     }
     fn full_type(&self) -> Type {
         Type::new(self.basic_type(), self.codec())
+    }
+    fn lz4_or_pco_decoded(&self) -> Option<Column> {
+        match self.codec.ops().first() {
+            Some(CodecOp::LZ4(..)) | Some(CodecOp::Pco(..)) => {
+                let mut column = self.clone();
+                column.lz4_or_pco_decode();
+                Some(column)
+            }
+            _ => None,
+        }
     }
 }
 
@@ -207,7 +227,7 @@ impl fmt::Debug for Column {
     }
 }
 
-#[derive(Debug, Serialize, Deserialize)]
+#[derive(Debug, Clone, Serialize, Deserialize)]
 pub enum DataSection {
     U8(Vec<u8>),
     U16(Vec<u16>),
